@@ -32,7 +32,9 @@ func c07Profile(variant string, faults bool, early bool) func(c *sim.RunCtx) {
 			// clock (timers) and the termination group.
 			cfg.WConfig = true
 			if !cfg.Hier {
-				cfg.KeyFormat = 0
+				if !cfg.AC {
+					cfg.KeyFormat = 0
+				}
 			}
 			cfg.RetryIvl = 10 * time.Second
 		}
